@@ -17,7 +17,8 @@ Understood (nothing more):
     loop of `run` with `break` / `continue`, `return`, `pass`, `with self._lock:` (transparent), expression statements;
   * `self.silent` may be read anywhere: both settings are explored and must give the same tree;
   * no-ops: docstrings, `print`, calls on a `logging.Logger` (resolved by value), updates of the statistics attributes
-    (`_runs_count`, `_successful_runs`, `_failed_runs`, `_total_amplification`, `_results_history`), and any `if` whose test
+    (`_runs_count`, `_successful_runs`, `_failed_runs`, `_total_amplification`, `_results_history`; also `del` of a slice of one),
+    and any `if` whose test
     calls nothing but len/str/int/float/round/repr/max/min/bool and whose branches are all no-ops;
   * values: None/bool/int/float/str constants, the input signal and callback results (opaque signals), amplification
     arithmetic (`*`, `min`, `max`, comparisons) over the stage factor / running gain / `max_amplification`, wall-clock values
@@ -714,6 +715,13 @@ class Executor:
             if all(is_self(t) and t.attr in STATS for t in tg):
                 return self.harmless(st.value)
             return False
+        if isinstance(st, ast.Delete):
+            # `del self._results_history[:-1000]`: trimming a statistics attribute in place
+            def stat_target(t):
+                if isinstance(t, ast.Subscript):
+                    return is_self(t.value) and t.value.attr in STATS and self.harmless(t.slice)
+                return False
+            return all(stat_target(t) for t in st.targets)
         if isinstance(st, ast.If):
             if not self.harmless(st.test):
                 return False
